@@ -422,6 +422,47 @@ def run_hist_chunk(kind, chain, hs):
 
 
 # ------------------------------------------------------------------ part O: obtain / deliver
+def check_same_name_classes():
+    """two DISTINCT classes with the same qualified name (a class factory, namedtuple() called twice): each is its own object
+    - the peer must get two different references, each reaching its own class, and echoing gives the original back"""
+    env.silence_unraisable()
+    viol = []
+    svc = Recv()
+    w = pair.World(_rpyc.VoidService(), svc, CFG, CFG)
+    n = [0]
+
+    def make(tag):
+        return type("Widget", (object,), {"tag": tag, "__module__": "c03_factory"})
+
+    def main():
+        w.start_server()
+        root = w.cconn.root
+        import collections
+        for kind, c1, c2 in (("class", make("one"), make("two")),
+                             ("namedtuple-class", collections.namedtuple("Point", "x y"), collections.namedtuple("Point", "a b c"))):
+            n[0] += 1
+            root.hold("c", c1)
+            root.hold("c", c2)
+            h = svc.held.pop("c")
+            if h[0] is h[1]:
+                viol.append(("same-name-classes:one-proxy-for-two-objects:%s" % kind, ""))
+            else:
+                g = object.__getattribute__
+                seen = (g(h[0], "____id_pack__")[1], g(h[1], "____id_pack__")[1])     # which object each reference names
+                want = (id(c1), id(c2))
+                if tuple(seen) != tuple(want):
+                    viol.append(("same-name-classes:reference-reaches-the-wrong-class:%s" % kind, "%r instead of %r" % (seen, want)))
+            if root.echo(c2) is not c2 or root.echo(c1) is not c1:
+                viol.append(("same-name-classes:echo-is-not-the-original:%s" % kind, ""))
+            del h
+        del root
+
+    sch, _, exc = pair.run(main, horizon=100000, world=w)
+    if exc is not None or sch.outcome != "done":
+        viol.append(("same-name-classes:harness:%s" % sch.outcome, repr(exc)))
+    return n[0], viol
+
+
 def check_obtain_deliver():
     viol = []
     n = 0
@@ -578,6 +619,11 @@ def main(tier, replay_obj=None):
     for _, viol in outs:
         for sig, text in viol:
             res.violation(sig, text, {"part": "pairs"})
+    n, viol = check_same_name_classes()
+    res.evaluations += n
+    res.parts["same-name-classes"] = {"checks": n}
+    for sig, text in viol:
+        res.violation(sig, text, {"part": "same-name"})
     n, viol = check_obtain_deliver()
     res.evaluations += n
     res.parts["obtain-deliver"] = {"checks": n}
